@@ -852,3 +852,77 @@ Proof.
     + destruct (elem_step x dims' gm' attrs') as [x1|e] eqn:E1; simpl; [|discriminate].
       intros E2. eapply IH; [|exact E2]. eapply georef_elem; eauto.
 Qed.
+
+(* ------------------------------------------------------------------ recovery from a geo-referenced array *)
+Lemma georef_crs_from_attrs yd xd fyl fxl ay ax Py P gm0 ccn iy ix x :
+  georef yd xd fyl fxl ay ax Py P gm0 ccn iy ix x ->
+  get_crs_from_attrs x (yd, xd) = hd_error (attr_crs_candidates ay ++ attr_crs_candidates ax).
+Proof.
+  intros G. unfold get_crs_from_attrs. rewrite (gr_da _ _ _ _ _ _ _ _ _ _ _ _ _ G).
+  destruct (gr_at _ _ _ _ _ _ _ _ _ _ _ _ _ G) as (_ & A2 & A3).
+  unfold attr_crs_candidates at 1. rewrite A2, A3. simpl.
+  rewrite (gr_cy _ _ _ _ _ _ _ _ _ _ _ _ _ G), (gr_cx _ _ _ _ _ _ _ _ _ _ _ _ _ G). simpl.
+  rewrite app_nil_r. reflexivity.
+Qed.
+
+Section Recover.
+  Variables (fxl fyl : Z -> Q) (tx rx ty ry : Q).
+  Hypothesis Hfx : forall i, fxl i == inject_Z i * rx + (tx + rx / 2).
+  Hypothesis Hfy : forall i, fyl i == inject_Z i * ry + (ty + ry / 2).
+
+  Lemma locate_georef fx tol yd xd ay ax Py P gm0 ccn px qx mx py qy my x :
+    georef yd xd fyl fxl ay ax Py P gm0 ccn (ap py qy my) (ap px qx mx) x ->
+    1 <= mx -> 1 <= my ->
+    let crs_coord := option_map snd ccn in
+    let gcp := match ccn with Some p => extract_gcps (snd p) | None => None end in
+    let P' := if is_some gcp then None else P in
+    let c := match ccn with
+             | Some p => extract_crs (snd p)
+             | None => hd_error (attr_crs_candidates ay ++ attr_crs_candidates ax)
+             end in
+    ((2 <= mx /\ 2 <= my) \/ exists r, fallback_of fx tol crs_coord (is_some gcp) P' = Ok (Some r)) ->
+    exists T,
+      locate_geo_info fx tol x =
+        Ok (GeoState (Some (yd, xd)) c (Some (compose_tr P' T))
+                     (match gcp with
+                      | Some pts => Some (AGcp my mx (compose_tr P' T) pts c)
+                      | None => Some (ABox (GBox my mx (compose_tr P' T) c))
+                      end)) /\
+      fb T == 0 /\ fd T == 0 /\
+      (forall j k, 0 <= j < my -> 0 <= k < mx ->
+         fst (aff_apply T (inject_Z k + (1 # 2)) (inject_Z j + (1 # 2))) == fxl (px + qx * k) /\
+         snd (aff_apply T (inject_Z k + (1 # 2)) (inject_Z j + (1 # 2))) == fyl (py + qy * j)) /\
+      (2 <= mx -> fa T == rx * inject_Z qx /\ fc T == tx + rx * inject_Z px + rx / 2 - rx * inject_Z qx / 2) /\
+      (2 <= my -> fe T == ry * inject_Z qy /\ ff T == ty + ry * inject_Z py + ry / 2 - ry * inject_Z qy / 2) /\
+      (mx = 1 -> exists r, fallback_of fx tol crs_coord (is_some gcp) P' = Ok (Some r) /\ fa T == fst r) /\
+      (my = 1 -> exists r, fallback_of fx tol crs_coord (is_some gcp) P' = Ok (Some r) /\ fe T == snd r).
+  Proof.
+    intros G Hmx Hmy crs_coord gcp P' c Hfb.
+    pose proof (gr_ny _ _ _ _ _ _ _ _ _ _ _ _ _ G) as Hny. rewrite zlen_ap in Hny by lia.
+    pose proof (gr_nx _ _ _ _ _ _ _ _ _ _ _ _ _ G) as Hnx. rewrite zlen_ap in Hnx by lia.
+    destruct (georef_crs_coords _ _ _ _ _ _ _ _ _ _ _ _ _ G) as (nm & Hcc).
+    rewrite (locate_compute fx tol x (yd, xd) my mx (gr_sd _ _ _ _ _ _ _ _ _ _ _ _ _ G) Hny Hnx).
+    cbv zeta. rewrite Hcc.
+    rewrite (georef_crs_from_attrs _ _ _ _ _ _ _ _ _ _ _ _ _ G).
+    assert (ET : exists T,
+      extract_transform fx tol (x_coords x) (yd, xd) crs_coord (is_some gcp) = Ok (Some (compose_tr P' T)) /\
+      fb T == 0 /\ fd T == 0 /\
+      (forall j k, 0 <= j < my -> 0 <= k < mx ->
+         fst (aff_apply T (inject_Z k + (1 # 2)) (inject_Z j + (1 # 2))) == fxl (px + qx * k) /\
+         snd (aff_apply T (inject_Z k + (1 # 2)) (inject_Z j + (1 # 2))) == fyl (py + qy * j)) /\
+      (2 <= mx -> fa T == rx * inject_Z qx /\ fc T == tx + rx * inject_Z px + rx / 2 - rx * inject_Z qx / 2) /\
+      (2 <= my -> fe T == ry * inject_Z qy /\ ff T == ty + ry * inject_Z py + ry / 2 - ry * inject_Z qy / 2) /\
+      (mx = 1 -> exists r, fallback_of fx tol crs_coord (is_some gcp) P' = Ok (Some r) /\ fa T == fst r) /\
+      (my = 1 -> exists r, fallback_of fx tol crs_coord (is_some gcp) P' = Ok (Some r) /\ fe T == snd r)).
+    { exact (extract_transform_ap fxl fyl tx rx ty ry Hfx Hfy fx tol (x_coords x) yd xd
+               (Coord [yd] (map fyl (ap py qy my)) ay Py) (Coord [xd] (map fxl (ap px qx mx)) ax P)
+               crs_coord (is_some gcp) px qx mx py qy my
+               (gr_cy _ _ _ _ _ _ _ _ _ _ _ _ _ G) (gr_cx _ _ _ _ _ _ _ _ _ _ _ _ _ G)
+               eq_refl eq_refl Hmx Hmy Hfb). }
+    destruct ET as (T & E & Props).
+    exists T. split; [|exact Props].
+    subst crs_coord gcp c. destruct ccn as [[n cc]|]; simpl in *.
+    - rewrite E. simpl. destruct (extract_gcps cc); reflexivity.
+    - rewrite E. reflexivity.
+  Qed.
+End Recover.
